@@ -156,6 +156,7 @@ fn exec_op(
                                 PortReq::Call(M::VProv, x, _) => {
                                     PortResp::Val(ByVal::v_prov(cell.take().unwrap(), x))
                                 }
+                                PortReq::Call(M::Vu, x, _) => PortResp::Val(ByValU::vu(cell.take().unwrap(), x)),
                                 PortReq::Call(m, ..) => panic!("bad by-value call {m:?}"),
                             })
                         }));
@@ -174,6 +175,7 @@ fn exec_op(
                                 PortReq::Call(M::RcProv, x, _) => {
                                     PortResp::Val(ByRc::rc_prov(cell.take().unwrap(), x))
                                 }
+                                PortReq::Call(M::RcU, x, _) => PortResp::Val(ByRcU::rcu(cell.take().unwrap(), x)),
                                 PortReq::Call(m, ..) => panic!("bad Rc call {m:?}"),
                             })
                         }));
